@@ -8,8 +8,10 @@ import (
 	"archive/zip"
 	"bytes"
 	"fmt"
+	"hash/crc32"
 	"os"
 	"path"
+	"path/filepath"
 	"strings"
 )
 
@@ -124,4 +126,130 @@ func (c *picCtx) synth(shape map[string]interface{}) []byte {
 
 func picEsc(s string) string {
 	return strings.NewReplacer("&", "&amp;", "<", "&lt;", ">", "&gt;", `"`, "&quot;").Replace(s)
+}
+
+// ---- the caller's files (path slots of the specification) ---------------------------------
+
+// every slot is one file; the name of the file says nothing about what it holds
+var picSlotNames = map[string]string{"pa": "chart.png", "pb": "スキャン"}
+
+func (c *picCtx) slotFile(slot string) string {
+	name := picSlotNames[slot]
+	if name == "" {
+		name = slot
+	}
+	return filepath.Join(c.dir, "own", slot, name)
+}
+
+// slotPath spells the path of a slot in one of several equivalent ways.
+func (c *picCtx) slotPath(slot string, i int) string {
+	p := c.slotFile(slot)
+	dir, name := filepath.Dir(p), filepath.Base(p)
+	switch (int(seed) + i) % 3 {
+	case 1:
+		return dir + string(filepath.Separator) + "." + string(filepath.Separator) + name
+	case 2:
+		os.MkdirAll(filepath.Join(dir, "x"), 0o755)
+		return dir + string(filepath.Separator) + "x" + string(filepath.Separator) + ".." + string(filepath.Separator) + name
+	}
+	return p
+}
+
+// slotWrite replaces the content of a slot's file: in place, or by renaming a new file over it.
+func (c *picCtx) slotWrite(slot string, data []byte, i int) string {
+	p := c.slotFile(slot)
+	if err := os.MkdirAll(filepath.Dir(p), 0o755); err != nil {
+		return "err"
+	}
+	if (int(seed)+i)%2 == 0 {
+		if err := os.WriteFile(p, data, 0o644); err != nil {
+			return "err"
+		}
+		return "ok"
+	}
+	tmp := p + ".tmp"
+	if err := os.WriteFile(tmp, data, 0o644); err != nil {
+		return "err"
+	}
+	if err := os.Rename(tmp, p); err != nil {
+		return "err"
+	}
+	return "ok"
+}
+
+// ---- encoded length classes ------------------------------------------------------------------
+
+// picFill gives n bytes that differ from image to image and from block to block and deflate quickly.
+func picFill(n, tok int) []byte {
+	b := make([]byte, n)
+	for i := 0; i < n; i += 4096 {
+		k := i/4096*7 + tok
+		for j := 0; j < 4 && i+j < n; j++ {
+			b[i+j] = byte(k >> (8 * j))
+		}
+	}
+	if n > 0 {
+		b[n-1] = byte(tok) | 1
+	}
+	return b
+}
+
+// picPad brings a valid image file to exactly n bytes with data every decoder skips: an ancillary
+// chunk before IEND (PNG), comment segments after SOI (JPEG), a comment extension before the trailer (GIF).
+func picPad(b []byte, f string, n, tok int) []byte {
+	extra := n - len(b)
+	switch f {
+	case "jpeg":
+		if extra < 4 || len(b) < 2 {
+			return b
+		}
+		out := append(make([]byte, 0, n), b[:2]...)
+		for extra > 0 {
+			s := extra
+			if s > 65537 {
+				s = 65537
+			}
+			if r := extra - s; r > 0 && r < 4 {
+				s -= 4
+			}
+			out = append(out, 0xFF, 0xFE, byte((s-2)>>8), byte(s-2))
+			out = append(out, picFill(s-4, tok)...)
+			extra -= s
+		}
+		return append(out, b[2:]...)
+	case "gif":
+		if extra < 5 || len(b) < 1 || b[len(b)-1] != 0x3B {
+			return b
+		}
+		out := append(make([]byte, 0, n), b[:len(b)-1]...)
+		out = append(out, 0x21, 0xFE)
+		extra -= 3 // introducer, label, block terminator
+		for extra > 0 {
+			s := extra
+			if s > 256 {
+				s = 256
+			}
+			if extra-s == 1 {
+				s--
+			}
+			out = append(out, byte(s-1))
+			out = append(out, picFill(s-1, tok)...)
+			extra -= s
+		}
+		return append(out, 0x00, 0x3B)
+	}
+	if extra < 12 || len(b) < 12 {
+		return b
+	}
+	iend := len(b) - 12
+	data := picFill(extra-12, tok)
+	chunk := make([]byte, 0, extra)
+	chunk = append(chunk, byte(len(data)>>24), byte(len(data)>>16), byte(len(data)>>8), byte(len(data)))
+	chunk = append(chunk, 'p', 'r', 'V', 't')
+	chunk = append(chunk, data...)
+	crc := crc32.ChecksumIEEE(chunk[4:])
+	chunk = append(chunk, byte(crc>>24), byte(crc>>16), byte(crc>>8), byte(crc))
+	out := append(make([]byte, 0, n), b[:iend]...)
+	out = append(out, chunk...)
+	return append(out, b[iend:]...)
 }
